@@ -1,0 +1,17 @@
+//go:build verif
+
+package jpegmeta
+
+// Contracts for the verification machinery in /verif (vcgo). Comment-only.
+
+// ---- C07/C19: Load composes TeeReader / bufio / MultiReader (assumed io contracts) ----
+
+//@ func extractMetadata
+//@   modular
+//@   recovers
+//@   assumes [C19] deterministic: (err == nil) == old(ufc("ok_jpeg", r)) && (err == nil ==> md != nil && md.PixelWidth == old(ufc("w_jpeg", r)) && md.PixelHeight == old(ufc("h_jpeg", r)) && md.BitsPerComponent == old(ufc("d_jpeg", r)))
+
+//@ func Load
+//@   ensures [C07,C19] stream-non-nil: imgStream != nil
+//@   ensures [C07,C19] replays-input: stream_len(imgStream) == old(r.avail) && (forall j int :: 0 <= j && j < old(r.avail) ==> stream_at(imgStream, j) == u8(r, old(r.pos) + j))
+//@   ensures [C07] source-error-resurfaces: stream_err(imgStream) == stream_err(r)
